@@ -10,7 +10,7 @@ PERSISTED = ["PublishAtLeastOnce", "PublishExactlyOnce", "PublishAtLeastOnceReta
 # which scenario families serve which property, and which clause prefixes a property owns
 FAMILIES = {
     "C01": ["out", "restart", "wrap"], "C02": ["restart", "restart", "wrap"], "C03": ["out", "restart"], "C04": ["in", "inrestart"],
-    "C05": ["out", "restart"], "C07": ["in"], "C10": ["connect", "req", "out", "in", "in"], "C11": ["req", "close", "connect", "hostile"],
+    "C05": ["out", "restart", "wrap"], "C07": ["in"], "C10": ["connect", "req", "out", "in", "in"], "C11": ["req", "close", "connect", "hostile"],
     "C12": ["close"], "C13": ["hostile", "hostile", "in"], "C16": ["damage", "damagein"], "C17": ["out", "restart", "req", "wrap"],
     "C18": ["connect", "connect", "out"], "C14": ["req", "close", "out", "connect"], "C08": ["req", "out"],
 }
@@ -270,7 +270,7 @@ MC = {
     "mixreq": dict(script="ScriptMixReq", amax=2, emax=2, conns=2, dial=1, write=1, read=0, store=0, calls=4, k_quick=100, k_thorough=20),
 }
 MC_FOR = {
-    "C01": ["one", "q2"], "C03": ["q2", "seedwrap0"], "C05": ["two"], "C10": ["one", "mixreq"], "C12": ["close", "reqclose", "disc", "discreq", "close_b"], "C17": ["max1", "one"],
+    "C01": ["one", "q2"], "C03": ["q2", "seedwrap0"], "C05": ["two", "seedwrap0"], "C10": ["one", "mixreq"], "C12": ["close", "reqclose", "disc", "discreq", "close_b"], "C17": ["max1", "one"],
     "C18": ["one", "req"], "C14": ["req", "close", "quit", "unsub"], "C08": ["mixreq", "two", "q12w2"], "C11": ["req", "pings", "quit", "unsub", "devF25", "req_b"],
     "C04": ["in22", "in", "inrestart"], "C07": ["in", "in22", "inrestart"], "C13": ["in"], "C02": ["restart", "restart2", "seedwrap", "seedrels"], "C16": ["damage", "damage3", "damage5", "damage24", "seedmix", "seedwrap"],
 }
